@@ -72,7 +72,8 @@ ImgSecs == CASE sec.imgs = "none" -> Empty
                                     @@ ("images-p1" :> (("kernel" :> "$img:xenkernel") @@ ("initrd.IMG" :> "$img:initrd")))
 Stage2Sec == CASE sec.stage2 = "none" -> Empty [] sec.stage2 = "main" -> ("stage2" :> ("mainimage" :> "$img:stage2"))
                [] sec.stage2 = "both" -> ("stage2" :> (("mainimage" :> "$img:stage2") @@ ("instimage" :> "$img:inst")))
-MediaSec == IF sec.media THEN ("media" :> (("discnum" :> "2") @@ ("totaldiscs" :> "3"))) ELSE Empty
+\* "$discnum" / "$totaldiscs": any integers (the harness rotates 2/3, 1/1, 0/0 - a set that is numbered from nought)
+MediaSec == IF sec.media THEN ("media" :> (("discnum" :> "$discnum") @@ ("totaldiscs" :> "$totaldiscs"))) ELSE Empty
 CksSec == IF sec.cks THEN ("checksums" :> (("$img:boot" :> "$cks:sha256") @@ ("Repo/repomd.XML" :> "$cks:md5"))) ELSE Empty
 Doc == [s \in {SecName(t, "variant") : t \in tops} \cup {SecName(t \o "-h", kidtype[t]) : t \in WithKid}
               \cup {SecName(t \o "-h-g", "addon") : t \in WithKid2} |->
